@@ -50,6 +50,19 @@ Definition meets_spec (bad : list string) (tbl : list row) : Prop :=
 Definition folds_to_spec (bad : list string) (tbl : list row) : Prop :=
   Forall (fun e => In (rname e) bad \/ rexp e = Declined \/ row_ok e) tbl.
 
+(* folder rows of the trapping operations: outside the domain the row declines
+   (a guard `if (...) break;`), so the compiler itself never divides by zero or
+   LONG_MIN by -1 while folding *)
+Definition row_guarded (o : sop) (e : row) : Prop :=
+  forall args, typed (rargs e) args -> in_dom o args = false -> declines args (rexp e) = true.
+
+Definition fold_fault_free (bad : list string) (tbl : list row) : Prop :=
+  Forall (fun e => In (rname e) bad \/
+                   match sop_of (rname e) with
+                   | Some o => may_fault o = true -> row_guarded o e
+                   | None => True
+                   end) tbl.
+
 (* ------------------------------------------------------------------ finite domains *)
 
 Fixpoint zrange (lo : Z) (n : nat) : list Z :=
@@ -304,11 +317,19 @@ Ltac inv_typed H :=
   end.
 
 (* unfold the evaluator on a concrete expression, leaving Z and bool operations *)
-Ltac cev :=
-  cbv [sem defd ev ty_of conv cty_eqb promote join is_int is_cmp is_shift cmp_ev arith_ev
-       in_range tmin tmax width is_signed nth List.length Nat.ltb Nat.leb
-       libfn_of libfn_ev glob_info
+(* string-keyed lookups (limits.h constants, libc functions) on literal names *)
+Ltac closed_str :=
+  repeat match goal with
+  | |- context [glob_info ?s] => let v := eval vm_compute in (glob_info s) in change (glob_info s) with v
+  | |- context [libfn_of ?s] => let v := eval vm_compute in (libfn_of s) in change (libfn_of s) with v
+  end.
+
+Ltac cev1 :=
+  cbv [sem defd declines ev ty_of conv cty_eqb promote join is_int is_cmp is_shift cmp_ev arith_ev
+       in_range tmin tmax width is_signed nth List.length Nat.ltb Nat.leb libfn_ev
        spec in_dom a0 a1 a2 red div_ok smin smax].
+
+Ltac cev := cev1; closed_str; cev1.
 
 Ltac cev_in H :=
   cbv [in_dom a0 a1 a2 red div_ok smin smax nth] in H.
@@ -430,6 +451,37 @@ Proof.
   - right. right. apply row_ok_none. unfold specd in Hs. destruct (sop_of (rname e)); [discriminate|reflexivity].
 Qed.
 
+Lemma fold_fault_free_filter bad tbl :
+  Forall (fun e => In (rname e) bad \/
+                   match sop_of (rname e) with
+                   | Some o => may_fault o = true -> row_guarded o e
+                   | None => True
+                   end) (filter specd tbl) -> fold_fault_free bad tbl.
+Proof.
+  intro H. unfold fold_fault_free. rewrite Forall_forall in *. intros e He.
+  destruct (specd e) eqn:Hs.
+  - apply H. apply filter_In. split; assumption.
+  - right. unfold specd in Hs. destruct (sop_of (rname e)); [discriminate|exact I].
+Qed.
+
+Ltac solve_guarded :=
+  let args := fresh "args" in let Ht := fresh "Ht" in let Hd := fresh "Hd" in
+  intros args Ht Hd; cbn [rargs rexp] in *; inv_typed Ht; cev_in Hd;
+  cev; closed_cmp; cbn [andb orb negb]; unfold wrap in *; lia.
+
+Ltac solve_fault_row :=
+  first
+    [ left; solve [in_list]
+    | right;
+      lazymatch goal with
+      | |- match sop_of ?n with _ => _ end =>
+          let s := eval vm_compute in (sop_of n) in
+          change (sop_of n) with s; cbv beta iota;
+          first [ let H := fresh in intro H; vm_compute in H; discriminate H
+                | let H := fresh in intro H; clear H; first [ reflexivity | solve [solve_guarded] ] ]
+      end
+    | row_failed ].
+
 Ltac walk_filtered lem solve_one :=
   apply lem;
   lazymatch goal with
@@ -452,13 +504,16 @@ Fixpoint has_opaque (e : cexp) : bool :=
   match e with
   | Opaque _ => true
   | Cast _ a | Un _ a => has_opaque a
-  | Bin _ a b | ACons a b => has_opaque a || has_opaque b
+  | Bin _ a b | ACons a b | Guard a b => has_opaque a || has_opaque b
   | Cond a b c => has_opaque a || has_opaque b || has_opaque c
   | Call _ a => has_opaque a
   | _ => false
   end.
 
 Definition is_declined (e : cexp) : bool := match e with Declined => true | _ => false end.
+
+(* the folder row under a (possible) guard *)
+Definition unguard (e : cexp) : cexp := match e with Guard _ a => a | _ => e end.
 
 (* the interpreter has exactly one translated row for the builtin; every row of
    the generated-C table and every folding row of the folder has the same core *)
@@ -468,7 +523,7 @@ Definition sameop_check (cf fi gc : list row) (n : string) : bool :=
       negb (has_opaque (rexp r))
       && negb (Nat.eqb (List.length (lookup_all n gc)) 0)
       && forallb (fun g => cexp_eqb (core (rexp g)) (core (rexp r))) (lookup_all n gc)
-      && forallb (fun c => is_declined (rexp c) || cexp_eqb (core (rexp c)) (core (rexp r)))
+      && forallb (fun c => is_declined (rexp c) || cexp_eqb (core (unguard (rexp c))) (core (rexp r)))
                  (lookup_all n cf)
   | _ => false
   end.
